@@ -25,7 +25,7 @@ Section Goals.
            = map (fun e =>
                     let ok := nth (d_worker e) oks ([], []) in
                     (d_worker e,
-                     spec_drain_sent H ed_pk ed_sign (S (length (d_queue e))) (batch_size cfg)
+                     spec_drain_sent_f H ed_pk ed_sign (send_fails cfg) (S (length (d_queue e))) (batch_size cfg)
                        (ltk_srv_value H ed_pk lt) lt (fst ok) (snd ok) (d_clk e) 0 (d_queue e))) evs.
 
   (* ---------- C19: the worker loop and the shutdown flag ---------- *)
@@ -41,7 +41,7 @@ Section Goals.
       SInv H ed_pk ed_sign cfg lt oi oc s'
       /\ Forall (fun o => exists ds now,
                    (length ds <= batch_size cfg)%nat
-                   /\ so_sent o = spec_batch_sent H ed_pk ed_sign (ltk_srv_value H ed_pk lt) lt oi oc now ds) outs.
+                   /\ so_sent o = spec_batch_sent_f H ed_pk ed_sign (send_fails cfg) (ltk_srv_value H ed_pk lt) lt oi oc now ds) outs.
 
   (* with nothing arriving during the drains, the loop returns right after the iteration in which
      the flag is seen: after exactly flag_at - i + 1 iterations (idle: each is one poll timeout) *)
